@@ -324,4 +324,8 @@ def gen_corpus(ctx, prop, modname):
 @prop('C01', level='translation_validation', title='core language')
 def c01(ctx):
     C = _check()
-    return [C.TVJob('corpus', gen_corpus(ctx, 'C01', 'tvc01'), 'tvc01', chunks=12, unwind=8, deadline_s=120 if ctx.quick else 600, prefix='C01.')]
+    return [
+        # the IR as cl/ssa emit it, and the IR after the C-ABI transformation build.Do applies to every module by default
+        C.TVJob('corpus', gen_corpus(ctx, 'C01', 'tvc01'), 'tvc01', chunks=8, unwind=8, deadline_s=120 if ctx.quick else 600, prefix='C01.'),
+        C.TVJob('corpus-cabi', gen_corpus(ctx, 'C01', 'tvc01'), 'tvc01', chunks=8, unwind=8, deadline_s=120 if ctx.quick else 600, prefix='C01.cabi.', extra=['--abi', '2']),
+    ]
